@@ -128,6 +128,9 @@ pub fn gen_source(r: &mut StdRng, o: &GenOpts, dir: &str, deps: &[String], is_de
             }
         };
         let cont = |r: &mut StdRng, arg: &str| -> String {
+            // after a prefix-less (erroneous) directive nothing is swallowed as an argument: a
+            // `temp` look-alike naming a project file would be a real directive there (D8)
+            let arg = if pre.is_empty() && arg.contains("TXTPP#temp") { "more" } else { arg };
             let ascii = pre.is_ascii();
             let form = r.gen_range(0..3);
             if arg.is_empty() && form == 2 {
@@ -208,8 +211,11 @@ pub fn gen_source(r: &mut StdRng, o: &GenOpts, dir: &str, deps: &[String], is_de
                 tmpn += 1;
                 let t = r.gen_range(0..100);
                 let bad = err(r);
-                let target = if bad && t < 40 {
+                let target = if bad && t < 25 {
                     format!("t{idx}_{tmpn}.txtpp")
+                } else if bad && t < 45 {
+                    // an existing directory (or nothing at all: resolves to the source's own directory)
+                    ["sub", "", ".", "sub/deep", "other"][r.gen_range(0..5)].to_string()
                 } else if bad && t < 70 {
                     format!("nodir/t{idx}_{tmpn}.tmp")
                 } else if bad {
@@ -226,7 +232,7 @@ pub fn gen_source(r: &mut StdRng, o: &GenOpts, dir: &str, deps: &[String], is_de
                 ls.push(head("temp", &target));
                 let nb = r.gen_range(0..4);
                 for _ in 0..nb {
-                    let b = ["body line", "", "  indented body", "TXTPP#run echo inert", "\u{e9}", "TAG1"][r.gen_range(0..6)];
+                    let b = ["body line", "", "  indented body", "TXTPP#run echo inert", "\u{e9}", "TAG1", "-TXTPP#temp inc_multi.txt"][r.gen_range(0..7)];
                     ls.push(cont(r, b));
                 }
                 if !bad && t < 75 && r.gen_bool(0.5) {
@@ -276,14 +282,15 @@ pub fn gen_source(r: &mut StdRng, o: &GenOpts, dir: &str, deps: &[String], is_de
                 ls.push(head("write", ["w one", "TXTPP#run echo escaped", "", "TAG1 stays", "  lead is trimmed"][r.gen_range(0..5)]));
                 let nb = r.gen_range(0..3);
                 for _ in 0..nb {
-                    let b = ["second", "", "-TXTPP#include inc_nl.txt", "  keep lead"][r.gen_range(0..4)];
+                    let b = ["second", "", "-TXTPP#include inc_nl.txt", "  keep lead", "-TXTPP#temp inc_nl.txt", "TXTPP#temp ../inc_nonl.txt"][r.gen_range(0..6)];
                     ls.push(cont(r, b));
                 }
             }
             _ => {
                 ls.push(head("", ["", "*/", "-->", "note"][r.gen_range(0..4)]));
                 if r.gen_bool(0.4) {
-                    ls.push(cont(r, "more"));
+                    let b = ["more", "-TXTPP#temp inc_crlf.txt", "TXTPP#run echo commented out"][r.gen_range(0..3)];
+                    ls.push(cont(r, b));
                 }
             }
         }
